@@ -70,7 +70,24 @@ static void session(Tape &t, Ctx &ctx) {
     Ent S0 = buildFile(t, ctx, orig, 6, 45);
     ctx.trace << "] readonly[ ";
     const std::string bytes0 = slurp(orig);
-    nix::File ro = nix::File::open(orig, nix::FileMode::ReadOnly, "hdf5", comp(t));
+    // configuration: the same file may be open for writing elsewhere in this process (HDF5 shares open files)
+    nix::File rwAlso;
+    if (t.chance(15)) {
+        rwAlso = nix::File::open(orig, nix::FileMode::ReadWrite);
+        ctx.trace << "(also open ReadWrite in this process) ";
+    }
+    nix::File ro;
+    try {
+        ro = nix::File::open(orig, nix::FileMode::ReadOnly, "hdf5", comp(t));
+    } catch (const std::exception &e) {
+        VCHECK(!!rwAlso, "ReadOnly open of a valid file failed: " << e.what());
+        // refusing is fine: a handle that cannot be read-only is not handed out
+        rwAlso.close();
+        VCHECK(slurp(orig) == bytes0, "the refused ReadOnly open changed the bytes of the file");
+        ctx.count("readonly_open_refused_while_open_for_writing");
+        ctx.nontrivial = true;
+        return;
+    }
     {
         std::string d = diff(S0, snapshot(ro));
         VCHECK(d.empty(), "the ReadOnly view differs from the tree before close: " << d);
@@ -126,6 +143,7 @@ static void session(Tape &t, Ctx &ctx) {
         }
     }
     ro.close();
+    if (rwAlso) rwAlso.close();
     VCHECK(slurp(orig) == bytes0, "closing the ReadOnly file changed its bytes");
     ctx.trace << "] ";
     // ReadWrite keeps everything
